@@ -37,17 +37,17 @@ def gen_cases(tier, seed):
     cases = []
     reps = {"quick": 1, "search": 3, "thorough": 4}[tier]
     for rep in range(reps):
-        for fam in ("f", "h"):
+        for fam in ("f", "h", "m"):          # m = HC restricted to the LZ4MID levels 1-2 (mirrored on Model.HcMidStream)
             for geo in GEOS:
                 for M in MS:
-                    if tier == "quick" and fam == "h" and rng.random() < 0.5:
+                    if tier == "quick" and fam in ("h", "m") and rng.random() < 0.5:
                         continue
                     big = M >= 20000
                     nb = rng.choice([6, 10]) if big else rng.choice([12, 25, 40])
-                    if fam == "h" and big: nb = min(nb, 6)
-                    c = {"bseed": rng.randrange(1 << 48), "kind": "stream_%s_%s" % (fam, geo), "fam": fam, "geo": geo, "M": M, "nblocks": nb,
+                    if fam != "f" and big: nb = min(nb, 6)
+                    c = {"bseed": rng.randrange(1 << 48), "kind": "stream_%s_%s" % (fam, geo), "fam": "f" if fam == "f" else "h", "geo": geo, "M": M, "nblocks": nb,
                          "p": {"pinject": 0.5 if M <= 5000 else 0.25, "pdict": 0.25, "pfail": 0.06,
-                               "levels": sl.HC_LEVELS if not big else sl.HC_LEVELS_CHEAP}}
+                               "levels": [1, 2, 2] if fam == "m" else sl.HC_LEVELS if not big else sl.HC_LEVELS_CHEAP}}
                     c["arena"] = sl.arena_need(geo, M, nb) + 2 * sl.K64 + 72000 + 4096
                     cases.append(c)
     for i in range({"quick": 6, "search": 10, "thorough": 30}[tier]):
